@@ -184,12 +184,15 @@ def classify(form, v, out, exp):
     return 'escape:%s-path:%s' % (path, wrong or 'other')
 
 
-ENCODINGS = ['utf-8', 'latin-1', 'cp1252', 'utf-16']
+ENCODINGS = ['utf-8', 'latin-1', 'cp1252', 'utf-16', 'cp500', 'utf-7',
+             'utf-16-le', 'utf-32', 'shift_jis', 'cp037']
 
 
 def check_bytes(acc, v, enc, ctx=0):
     try:
         b = v.encode(enc)
+        if b.decode(enc) != v:
+            return 0       # the codec does not round-trip this text
     except UnicodeError:
         return 0
     exp = html.escape(v, quote=True)
